@@ -13,7 +13,15 @@ use crate::tm::*;
 use slotted_egraphs::*;
 use std::collections::{BTreeMap, BTreeSet};
 
-pub struct GroupCheck;
+/// `C10`: the whole check. `C01G` / `C02G`: the e-graph paths only (random generator sets on 4-6 slots),
+/// reporting the soundness direction (an equality outside the generated group) as C01 and the completeness
+/// direction (a group element that does not compare equal) as C02: for a history that only unites a leaf with
+/// permuted copies of itself (and with one further term over the same slots) the generated group IS the
+/// congruence closure, so brute-force closure is an exact oracle for classes with 5 and 6 parameters, which
+/// M_cc cannot afford.
+pub struct GroupCheck {
+    pub id: &'static str,
+}
 
 type P = Vec<u8>; // image list: p[i] = image of point i
 
@@ -162,10 +170,13 @@ fn fact(k: usize) -> u64 {
 
 impl Check for GroupCheck {
     fn id(&self) -> &'static str {
-        "C10"
+        self.id
     }
 
     fn enumerated(&self, tier: Tier) -> u64 {
+        if self.id != "C10" {
+            return 0;
+        }
         enum_sizes(tier).iter().map(|(k, g)| fact(*k).pow(*g as u32)).sum()
     }
 
@@ -190,13 +201,13 @@ impl Check for GroupCheck {
     }
 
     fn gen(&self, seed: u64, _tier: Tier) -> Run {
-        let mut run = Run::new("C10", seed);
+        let mut run = Run::new(self.id, seed);
         let mut w = Rng::stream(seed, "workload");
         let mut k = *w.pick(&[4, 5, 5, 6, 6]);
         {
             // (own stream) seven or eight points, direct path only: groups with thousands of elements
             let mut br = Rng::stream(seed, "big-k");
-            if br.chance(1, 10) {
+            if self.id == "C10" && br.chance(1, 10) {
                 k = if br.chance(1, 5) { 8 } else { 7 };
             }
         }
@@ -236,12 +247,31 @@ impl Check for GroupCheck {
 
     fn budget(&self, tier: Tier) -> u64 {
         match tier {
-            Tier::Quick => self.enumerated(tier) + 50_000,
+            Tier::Quick => self.enumerated(tier) + if self.id == "C10" { 50_000 } else { 30_000 },
             Tier::Thorough => self.enumerated(tier) + 60_000,
         }
     }
 
     fn exec(&self, run: &Run) -> Outcome {
+        let mut out = self.exec_all(run);
+        if self.id != "C10" {
+            let (clause, prop) = if self.id == "C01G" { ("eq_outside_group", "C01") } else { ("eq_misses_group_element", "C02") };
+            let had = !out.violations.is_empty();
+            out.violations.retain(|v| v.clause == clause);
+            for v in out.violations.iter_mut() {
+                v.property = prop.into();
+            }
+            if had && out.violations.is_empty() && out.discarded.is_none() {
+                // a violation of another clause (a panic, the other direction) ended the run early
+                out.discarded = Some("other_clause".into());
+            }
+        }
+        out
+    }
+}
+
+impl GroupCheck {
+    fn exec_all(&self, run: &Run) -> Outcome {
         let mut out = Outcome::default();
         seam::apply(&run.knobs());
         let k = run.get("k").clamp(1, 8) as usize;
@@ -476,7 +506,7 @@ impl Check for GroupCheck {
 
         // (b) direct path (guard-on builds only)
         #[cfg(slotted_egraphs_verif)]
-        {
+        if self.id == "C10" {
             use slotted_egraphs::verif::VGroup;
             let mut nm = Naming::new(run.get("naming") as u32);
             let slots: Vec<Slot> = (0..k as S).map(|i| nm.slot(i)).collect();
